@@ -64,23 +64,23 @@ class BuildError(Exception):
     pass
 
 
-def run_flex(flex, lfile, outc, opts=(), cwd=None, timeout=120, extra_env=None):
+def run_flex(flex, lfile, outc, opts=(), cwd=None, timeout=120, extra_env=None, preexec=None):
     env = dict(os.environ)
     env.pop('POSIXLY_CORRECT', None)
     env['LC_ALL'] = 'C'
     if extra_env:
         env.update(extra_env)
     cmd = [flex] + list(opts) + ['-o', outc, lfile]
-    return run_group(cmd, env=env, cwd=cwd, timeout=timeout)
+    return run_group(cmd, env=env, cwd=cwd, timeout=timeout, preexec=preexec)
 
 
-def run_group(cmd, env=None, cwd=None, timeout=120, stdin_data=None):
+def run_group(cmd, env=None, cwd=None, timeout=120, stdin_data=None, preexec=None):
     """run a command in its own process group; on timeout kill the whole group (flex forks its
     filter chain, so killing only the first process would leave the others holding the pipes)"""
     import signal
     p = subprocess.Popen(cmd, stdin=subprocess.PIPE if stdin_data is not None else subprocess.DEVNULL,
                          stdout=subprocess.PIPE, stderr=subprocess.PIPE, env=env, cwd=cwd,
-                         start_new_session=True)
+                         start_new_session=True, preexec_fn=preexec)
     try:
         so, se = p.communicate(stdin_data, timeout=timeout)
         return p.returncode, so.decode('latin1'), se.decode('latin1')
